@@ -34,6 +34,7 @@ class AssignNode(Node):
         super().__init__(token)
         self.name = name
         self.expression = expression
+        self.blank = True
 
     def __str__(self) -> str:
         assert isinstance(self.token, TagToken)
